@@ -38,6 +38,7 @@ namespace {
     uint64_t g_min_delay = 1000, g_max_delay = 200000, g_burst = 0;
     struct sim_mpi_stats g_stats;
     int g_hold = 0;
+    int g_world_size = 1;
 
     uint64_t rnd()
     {
@@ -148,6 +149,9 @@ SIM_EXPORT void sim_mpi_get_stats(sim_mpi_stats* out)
         if (!g_reqs[i]->reported) g_stats.inflight++;
     *out = g_stats;
 }
+// the reported size of MPI_COMM_WORLD (the simulated rank only ever talks to itself; pika creates its
+// polling pool only when it believes there is more than one rank)
+SIM_EXPORT void sim_mpi_set_world_size(int n) { g_world_size = n < 1 ? 1 : n; }
 SIM_EXPORT void sim_mpi_hold(int on)
 {
     if (g_hold && !on)
@@ -206,7 +210,7 @@ int MPI_Comm_rank(MPI_Comm, int* rank)
 }
 int MPI_Comm_size(MPI_Comm, int* size)
 {
-    *size = 1;
+    *size = g_world_size;
     return MPI_SUCCESS;
 }
 int MPI_Get_processor_name(char* name, int* len)
